@@ -2,8 +2,8 @@
     Model: FV.Sched (Composition.run / _update_recursive / _find_dependencies and the time-shifting
     adapters).  Only statements here; proofs in FVP.Sched_proofs / FVP.Adapters_proofs. *)
 From Coq Require Import List ZArith Bool.
-From FV Require Import Base Sched.
-From FVP Require Import Adapters_proofs Sched_proofs.
+From FV Require Import Base Sched SchedSparse.
+From FVP Require Import Adapters_proofs Sched_proofs SchedSparse_proofs.
 Import ListNotations.
 Open Scope Z_scope.
 
@@ -63,6 +63,15 @@ Theorem C01_run_never_fails_on_data :
     wf cs -> run fuel cs endt = (o, st, acc) -> o <> OTime /\ o <> ONoData.
 Proof. exact run_good. Qed.
 
+(** The correspondence check of C01 evaluates FV.SchedSparse — the scheduler model generalised to components that
+    publish their outputs only at every p-th update (the driver reads the time of the OUTPUT, not its owner's clock).
+    With all periods 1 it is the model of the theorems above: same outcome, same event trace, same final times, for
+    every composition, end time and fuel.  (For periods > 1 the generalisation is tied to the code by the
+    correspondence only.) *)
+Theorem C01_sparse_model_refines_dense :
+  forall cs endt fuel, sp_model (dense_as_sparse (cs, endt, fuel)) = sched_model (cs, endt, fuel).
+Proof. exact sparse_refines_dense. Qed.
+
 (** Non-vacuity: a valid composition with a delay in front of a buffering adapter (finding F2), a
     pull-based component read through two outputs (finding F9) and a DelayToPull link. *)
 Definition ex_cs : composition :=
@@ -81,6 +90,7 @@ Example C01_nonvacuous :
 Proof. split; [apply wf_b_sound; vm_compute; reflexivity|vm_compute; auto]. Qed.
 
 Print Assumptions C01_available.
+Print Assumptions C01_sparse_model_refines_dense.
 Print Assumptions C01_available_through_pull_based.
 Print Assumptions C01_checked_time_is_requested_time.
 Print Assumptions C01_pull_ok.
